@@ -344,6 +344,20 @@ fn check_layout(ctx: &Ctx, spec: &Spec, seed: u64, n_states: usize) {
     check_law(ctx, &mut b, &mut r, spec, &direct, "compound", n_states);
     let erased = compound_ops(&sp, spec, true);
     check_law(ctx, &mut b, &mut r, spec, &erased, "compound-dyn", n_states / 2);
+    // the weights are a public field: after a user changes them every operation (the
+    // motion-check resolution included) must follow the new weights
+    {
+        let mut sp2 = sp.clone();
+        let mut spec2 = spec.clone();
+        for i in 0..spec2.comps.len() {
+            let w = *r.pick(&[0.0, 1e-3, 1.0, 7.5, 50.0]);
+            sp2.weights[i] = w;
+            spec2.comps[i].weight = w;
+        }
+        let mutated = compound_ops(&sp2, &spec2, false);
+        check_law(ctx, &mut b, &mut r, &spec2, &mutated, "compound-weights-changed", n_states / 3);
+        b.count("layouts_with_mutated_weights", 1);
+    }
     b.count(&format!("layouts[{}]", spec.comps.len()), 1);
     if b.samples.is_empty() {
         b.sample(json!({"layout": spec.describe(), "weights": spec.comps.iter().map(|c| c.weight).collect::<Vec<_>>() }));
